@@ -369,6 +369,8 @@ def judge_type(case, host, j):
         j.eq('parameter list', want, got)
         if pos == 'mparam':
             j.eq('instance parameter', 'self', inst.get('name') if inst is not None else None)
+            j.eq('instance parameter:transfer-ownership', 'none',
+                 inst.get('transfer-ownership') if inst is not None else None)
         p = [x for x in ps if x.get('name') == 'arg']
         if not p:
             return ('noparam',)
@@ -392,6 +394,7 @@ def judge_type(case, host, j):
         j.eq('return:nullable', M.nullable_expect(sp, 'ret'), r.get('nullable'))
         inst, ps = params_of(host)
         j.eq('parameter list', {'cbret': ['x'], 'vret': ['x']}.get(pos, []), [p.get('name') for p in ps])
+        j.eq('throws', ABSENT, host.get('throws'))
         out = (pos, tf and tf['tag'], tf and tf['name'], r.get('transfer-ownership'), r.get('nullable'))
     elif pos in ('field', 'ufield', 'fbits', 'farray'):
         f = [x for x in host.findall('field') if x.get('name') == 'fld']
@@ -459,6 +462,8 @@ def judge_arr(case, host, j):
     j.eq('throws', exp['throws'], host.get('throws'))
     if case['host'] == 'method':
         j.eq('instance parameter', 'self', inst.get('name') if inst is not None else None)
+        j.eq('instance parameter:transfer-ownership', 'none',
+             inst.get('transfer-ownership') if inst is not None else None)
     else:
         j.eq('instance parameter', ABSENT, inst.get('name') if inst is not None else None)
     got_names = [p.get('name') for p in ps]
